@@ -21,8 +21,8 @@ PLAN = dict(
     level_note=NOTE_BASE,
     runs=[
         dict(name="lib", run="^(TestPropLib|TestCorpus)$", checks=(8000, 100000), shards=(1, 16), timeout=(300, 3600)),
-        dict(name="cli", run="^TestPropCLI$", checks=(40, 2000), shards=(1, 1), timeout=(300, 3600)),
+        dict(name="cli", run="^(TestCLILookalikes|TestPropCLI)$", checks=(40, 2000), shards=(1, 1), timeout=(300, 3600)),
     ],
-    require=[("lib", "strategy-object-reused"), ("lib", "file-offset-advanced"), ("lib", "dishonest-wrong-key"), ("lib", "history>=2"), ("lib", "extra-attrs"), ("lib", "already-signed-input"), ("lib", "length-too-large"),
+    require=[("lib", "file:lookalike"), ("cli", "file:lookalike"), ("lib", "strategy-object-reused"), ("lib", "file-offset-advanced"), ("lib", "dishonest-wrong-key"), ("lib", "history>=2"), ("lib", "extra-attrs"), ("lib", "already-signed-input"), ("lib", "length-too-large"),
              ("cli", "signed-ok"), ("cli", "already-signed-input"), ("cli", "length-too-large")],
 )
